@@ -4,11 +4,13 @@
     [emit]          the sequence of Task calls MosekWrapper issues for a declared model ([sent], in
                     the order pep.py sends it), WITH the wrapper's own index expressions:
                     row number = what [getnumcon] returned, symmetric-matrix index = what
-                    [appendsparsesymmat] returned, bar-variable index of an LMI = [psd_matrix.counter + 1]
-                    (the PSDMatrix class counter of that object, an INPUT here: it is not the send
-                    order), row-index vector [nb_cons + np.zeros(shape, dtype=np.int8)] (OverflowError
-                    from nb_cons = 128 on under numpy >= 2), [putclist([Expression.counter - 1], [0.0])]
-                    in prepare_heuristic, [xx[-2]] in solve.
+                    [appendsparsesymmat] returned, bar-variable index of an LMI =
+                    [self._nb_pep_SDPconstraints_in_mosek - 1] (the wrapper's own count of matrix
+                    variables, incremented just before), row-index vector
+                    [nb_cons + np.zeros(shape, dtype=np.int32)] (numpy >= 2 raises OverflowError when
+                    nb_cons >= 2^31: the native index type of the API), [putclist([self.objective.counter], [0.0])]
+                    in prepare_heuristic, [xx[self.objective.counter]] in solve.
+                    (/repo after the fix: commits 88e1f86, 067bbb4, 54e4665.)
     [step]/[run]    MOSEK's documented semantics of those calls on a task state (assumption A1 of
                     harness/standin/mosek/__init__.py, which implements the same semantics and is what
                     the real wrapper code runs against); [None] = the API (or numpy) raises.
@@ -54,12 +56,14 @@ Inductive task_call : Type :=
 (* ------------------------------------------------------------------ emit: mosek_wrapper.py *)
 Definition sp (e : edict) : sparse := sparse_loop e.     (* expression_to_sparse_matrices *)
 
-(** [nb_cons + np.zeros(a_i.shape, dtype=np.int8)]: numpy >= 2 converts the Python int to int8 first *)
-Definition int8_ok (n : nat) : bool := Nat.ltb n 128.
+(** [nb_cons + np.zeros(a_i.shape, dtype=np.int32)]: numpy >= 2 converts the Python int to int32 first and raises
+    OverflowError when it does not fit; 2^31 is also the limit of every index of the MOSEK API *)
+Definition int32_lim : Z := 2147483648%Z.
+Definition int32_ok (n : nat) : bool := Z.ltb (Z.of_nat n) int32_lim.
 
-(** [putaijlist(nb + zeros(int8), a_i, a_val)] then [putconbound] (lines 149-157 / 204-205) *)
+(** [putaijlist(nb + zeros(int32), a_i, a_val)] then [putconbound] (lines 149-157 / 204-205) *)
 Definition row_tail (nb : nat) (e : edict) (bk : bkey) (lo up : Q) : list task_call :=
-  if int8_ok nb
+  if int32_ok nb
   then [TPutAijList (repeat nb (length (sF (sp e)))) (map fst (sF (sp e))) (map snd (sF (sp e)));
         TPutConBound nb bk lo up]
   else [TPyOverflow].
@@ -80,7 +84,7 @@ Definition emit_sc (pc nb k : nat) (e : edict) (s : sense) : list task_call :=
 Definition coupling_weight (i j : nat) : Q := if Nat.eqb i j then (- (1))%Q else (- (1 # 2))%Q.
 Definition coupling_triple (i j : nat) : triple := (Nat.max i j, Nat.min i j, coupling_weight i j).
 
-(** one entry of send_lmi_constraint_to_solver, lines 190-205; [bar] = psd_matrix.counter + 1 *)
+(** one entry of send_lmi_constraint_to_solver, lines 190-205; [bar] = self._nb_pep_SDPconstraints_in_mosek - 1 *)
 Definition emit_entry (pc size bar nb k i j : nat) (e : edict) : list task_call :=
   [TGetNumCon nb; TAppendCons 1;
    TAppendSparseSymMat pc (sG (sp e)) k;
@@ -101,22 +105,23 @@ Fixpoint emit_entries (pc size bar nb k : nat) (es : list (nat * nat * edict)) :
   | [] => []
   | (i, j, e) :: rest =>
       emit_entry pc size bar nb k i j e
-      ++ (if int8_ok nb then emit_entries pc size bar (S nb) (S (S k)) rest else [])
+      ++ (if int32_ok nb then emit_entries pc size bar (S nb) (S (S k)) rest else [])
   end.
 
 (** the body of _solve_with_wrapper's send loops over the already collected list;
-    [ctrs] = PSDMatrix.counter attribute of each LMI, in send order *)
-Fixpoint emit_items (pc nb k : nat) (ctrs : list nat) (l : sent) : list task_call :=
+    [nsdp] = self._nb_pep_SDPconstraints_in_mosek (1 after set_main_variables, +1 at the start of every
+    send_lmi_constraint_to_solver) *)
+Fixpoint emit_items (pc nb k nsdp : nat) (l : sent) : list task_call :=
   match l with
   | [] => []
   | SC e s :: rest =>
-      emit_sc pc nb k e s ++ (if int8_ok nb then emit_items pc (S nb) (S k) ctrs rest else [])
+      emit_sc pc nb k e s ++ (if int32_ok nb then emit_items pc (S nb) (S k) nsdp rest else [])
   | LMI m :: rest =>
       let es := entries m in
       TAppendBarvars [length m]
-      :: emit_entries pc (length m) (S (hd 0 ctrs)) nb k es
-      ++ (if Nat.leb (nb + length es) 128
-          then emit_items pc (nb + length es) (k + 2 * length es) (tl ctrs) rest else [])
+      :: emit_entries pc (length m) (S nsdp - 1) nb k es
+      ++ (if Z.leb (Z.of_nat (nb + length es)) int32_lim
+          then emit_items pc (nb + length es) (k + 2 * length es) (S nsdp) rest else [])
   end.
 
 Definition item_rows (it : item) : nat :=
@@ -135,9 +140,10 @@ Definition epilogue (ec obj : nat) : list task_call :=
   [TGetMaxNumVar (S ec); TPutCList [obj] [1%Q]; TPutObjSense OMax].
 
 (** everything up to (excluding) the first optimize *)
-Definition emit (l : sent) (pc ec obj : nat) (ctrs : list nat) : list task_call :=
-  prologue pc ec ++ emit_items pc 0 0 ctrs l
-  ++ (if Nat.leb (total_rows l) 128 then epilogue ec obj else []).
+Definition rows_fit_int32 (l : sent) : bool := Z.leb (Z.of_nat (total_rows l)) int32_lim.
+Definition emit (l : sent) (pc ec obj : nat) : list task_call :=
+  prologue pc ec ++ emit_items pc 0 0 1 l
+  ++ (if rows_fit_int32 l then epilogue ec obj else []).
 
 (** solve (298-304) and _recover_dual_values (228-244): the reads; [counter_psd] counts LMIs in send order *)
 Definition solve_reads : list task_call := [TOptimize; TGetBarxj 0; TGetXx; TGetProsta].
@@ -153,7 +159,7 @@ Definition recover_reads (l : sent) : list task_call := TGetY :: TGetBarsj 0 :: 
     [v] = wc_value - tol_dimension_reduction; sent with track=False through the same code *)
 Definition heur_edict (obj : nat) (v : Q) : edict := fst (c_ges [(KF obj, 1%Q)] v).
 Definition emit_prepare (pc ec obj nb k : nat) (v : Q) : list task_call :=
-  [TPutCList [ec - 1] [0%Q]; TPutObjSense OMin] ++ emit_sc pc nb k (heur_edict obj v) Ineq.
+  [TPutCList [obj] [0%Q]; TPutObjSense OMin] ++ emit_sc pc nb k (heur_edict obj v) Ineq.
 (** heuristic (337-343): [W] = the non-zero lower-triangular entries of the weight, row-major *)
 Definition emit_heuristic (pc k : nat) (W : list triple) : list task_call :=
   [TAppendSparseSymMat pc W k; TPutBarCj 0 [k] [1%Q]; TPutObjSense OMin].
@@ -166,24 +172,23 @@ Fixpoint heuristic_rounds (pc k : nat) (Ws : list (list triple)) : list task_cal
   | [] => []
   | W :: rest => emit_heuristic pc k W ++ solve_reads ++ heuristic_rounds pc (S k) rest
   end.
-Definition emit_session (l : sent) (pc ec obj : nat) (ctrs : list nat)
+Definition emit_session (l : sent) (pc ec obj : nat)
            (heur : option (Q * list (list triple))) : list task_call :=
-  emit l pc ec obj ctrs
-  ++ (if Nat.leb (total_rows l) 128
+  emit l pc ec obj
+  ++ (if rows_fit_int32 l
       then solve_reads ++ recover_reads l
            ++ match heur with
               | None => []
               | Some (v, Ws) =>
                   emit_prepare pc ec obj (total_rows l) (total_syms l) v
-                  ++ (if int8_ok (total_rows l) then heuristic_rounds pc (S (total_syms l)) Ws else [])
+                  ++ (if int32_ok (total_rows l) then heuristic_rounds pc (S (total_syms l)) Ws else [])
               end
       else []).
 
-(** what solve() returns: [tau = xx[-2]], whatever getprosta says (lines 301-305) *)
+(** what solve() returns: [tau = xx[self.objective.counter]], whatever getprosta says (lines 301-305) *)
 Inductive prosta : Type := PrimAndDualFeas | PrimInfeas | DualInfeas | ProstaUnknown.
-Definition readout_index (nvar : nat) : nat := nvar - 2.
-Definition mosek_solve_value (xx : list Q) (st : prosta) : option Q :=
-  Some (nth (readout_index (length xx)) xx 0%Q).
+Definition mosek_solve_value (xx : list Q) (obj : nat) (st : prosta) : option Q :=
+  Some (nth obj xx 0%Q).
 (** cvxpy path: [self.objective.value], which cvxpy leaves at None unless a solution was found *)
 Definition cvxpy_solve_value (value : Q) (st : prosta) : option Q :=
   match st with PrimAndDualFeas => Some value | _ => None end.
@@ -414,23 +419,9 @@ Definition wf_item (pc ec : nat) (it : item) : bool :=
   end.
 Definition wf_sent (pc ec : nat) (l : sent) : bool := forallb (wf_item pc ec) l.
 
-Fixpoint nats_eqb (a b : list nat) : bool :=
-  match a, b with
-  | [], [] => true
-  | x :: a', y :: b' => Nat.eqb x y && nats_eqb a' b'
-  | _, _ => false
-  end.
-
-(** F-C11a excluded: the PSDMatrix counters of the LMIs are 0, 1, 2, ... in send order *)
-Definition counters_in_send_order (ctrs : list nat) (l : sent) : bool :=
-  nats_eqb ctrs (seq 0 (length (lmis l))).
-(** F-C11c excluded: every row index fits int8 *)
-Definition rows_fit_int8 (l : sent) : bool := Nat.leb (total_rows l) 128.
-(** F-C11b excluded: the objective leaf is the last leaf expression *)
-Definition objective_is_last_leaf (ec obj : nat) : bool := Nat.eqb (S obj) ec.
-
-Definition guard (l : sent) (pc ec obj : nat) (ctrs : list nat) : bool :=
-  wf_sent pc ec l && Nat.ltb obj ec && counters_in_send_order ctrs l && rows_fit_int8 l.
+(** every row index fits the API's native int (int32): the only limit left, and MOSEK's own *)
+Definition guard (l : sent) (pc ec obj : nat) : bool :=
+  wf_sent pc ec l && Nat.ltb obj ec && rows_fit_int32 l.
 
 (* ------------------------------------------------------------------ dumps (correspondence) *)
 Open Scope string_scope.
@@ -480,10 +471,9 @@ Definition dump_sdp (d : sdp) : D :=
 
 (** one correspondence case: the whole session's call log; the second component tells whether the
     model says the API accepts every call ("ok") or raises, and the guard's verdict *)
-Definition dump_session (l : sent) (pc ec obj : nat) (ctrs : list nat)
+Definition dump_session (l : sent) (pc ec obj : nat)
            (heur : option (Q * list (list triple))) : D :=
-  let cs := emit_session l pc ec obj ctrs heur in
+  let cs := emit_session l pc ec obj heur in
   DL [DL (map dump_call (run_prefix cs t0));
       DB (match run cs t0 with Some _ => true | None => false end);
-      DB (guard l pc ec obj ctrs);
-      DB (objective_is_last_leaf ec obj)].
+      DB (guard l pc ec obj)].
